@@ -3,7 +3,8 @@
    keeper.GetNameAndTLD derives, types.TLDCost, types.IsReserved, types.SupportedTLDs).
    Reg: one MsgRegister / MsgRegisterName / direct RegisterRNSName call on the assembled app:
    the Names store, the PrimaryName store and the ujkl balances of the history's account
-   universe before and after, and the outcome class. *)
+   universe before and after, and the outcome class.
+   InitC: the same for one MsgInit. *)
 From Coq Require Import ZArith NArith List Bool.
 From JK Require Import Base.Dec Base.AList Base.Bytes Model.RnsReg Corr.Run.
 Import ListNotations.
@@ -18,6 +19,9 @@ Inductive c16_case :=
 | Reg (acc : accts)
       (pre_names : list (N * name_rec)) (pre_primary : list (N * N)) (pre_bank : list (N * Z))
       (op : reg_op) (out : outcome)
+      (post_names : list (N * name_rec)) (post_primary : list (N * N)) (post_bank : list (N * Z))
+| InitC (pre_names : list (N * name_rec)) (pre_primary : list (N * N)) (pre_bank : list (N * Z))
+      (op : init_op) (out : outcome)
       (post_names : list (N * name_rec)) (post_primary : list (N * N)) (post_bank : list (N * Z)).
 
 Definition oz_eqb (a b : option Z) : bool :=
@@ -47,6 +51,13 @@ Definition c16_ok (c : c16_case) : bool :=
   | Reg acc names prim bank op out names' prim' bank' =>
     let s := {| s_names := names; s_primary := prim; s_bank := bank |} in
     let '(o, s') := register acc s op in
+    outcome_eqb o out &&
+    same_map rec_eqb names' (s_names s') &&
+    same_map N.eqb prim' (s_primary s') &&
+    forallb (fun av => bal (s_bank s') (fst av) =? snd av) bank'
+  | InitC names prim bank op out names' prim' bank' =>
+    let s := {| s_names := names; s_primary := prim; s_bank := bank |} in
+    let '(o, s') := init_name s op in
     outcome_eqb o out &&
     same_map rec_eqb names' (s_names s') &&
     same_map N.eqb prim' (s_primary s') &&
